@@ -710,10 +710,18 @@ pub fn finish(spec: &Spec, result: RunResult, started: Instant) -> i32 {
         return 2;
     }
     if !result.violations.is_empty() {
+        // one report per signature: the one with the shortest tape
+        let mut by_sig: BTreeMap<String, &Violation> = BTreeMap::new();
         for v in &result.violations {
+            let e = by_sig.entry(v.failure.signature.clone()).or_insert(v);
+            if v.tape.len() < e.tape.len() {
+                *e = v;
+            }
+        }
+        for v in by_sig.values() {
             println!("  {}: {}", v.failure.signature, v.failure.message.lines().next().unwrap_or(""));
         }
-        for v in &result.violations {
+        for v in by_sig.values() {
             println!("VIOLATION property={} replay={}", spec.id, v.replay_path);
         }
         return 1;
